@@ -1,5 +1,6 @@
 import RSVerif.Model.Filter
 import RSVerif.Lemmas.Filter
+import RSVerif.Properties.C06Models
 /-
 C06 — Configured filters are honoured identically in every mode and phase.
 Property theorems only (helper lemmas live in RSVerif.Lemmas.Filter).
